@@ -231,6 +231,40 @@ func main() {
 			}
 		}
 
+		// ------------------------------------------------ configured work bound
+		c.Part("work-bound")
+		c.Bound("passphrase files with work factors 1..14 decrypted (right and wrong passphrase) by identities whose maximum was lowered to 1..14: no scrypt call may exceed 2^max")
+		if c.Shard == 0 {
+			for w := 1; w <= 14; w++ {
+				f, err := lab.Encrypt([]age.Recipient{keys.Scrypt("pw", w).Rcpt}, []byte("x"), false, nil)
+				if err != nil {
+					panic(err)
+				}
+				for m := 1; m <= 14; m++ {
+					for _, pass := range []string{"pw", "other"} {
+						idn, _ := age.NewScryptIdentity(pass)
+						idn.SetMaxWorkFactor(m)
+						scrypt.VerifLog = nil
+						res := lab.DecryptBytes(f, false, idn)
+						c.Eval(1)
+						c.DistinctOnce(ev.HashStr("wb", fmt.Sprint(w, m, pass)))
+						for _, call := range scrypt.VerifLog {
+							if call.N > 1<<uint(m) {
+								c.Fail("work-bound-exceeded", fmt.Sprintf("w%d.m%d.%s", w, m, pass), fmt.Sprintf("identity with maximum work factor %d derived a key with N=2^%d", m, w), nil)
+							}
+						}
+						if res.Panic != "" {
+							c.Fail("panic/Decrypt", fmt.Sprintf("w%d.m%d", w, m), res.Panic, nil)
+						}
+						if w > m && res.OK() {
+							c.Fail("work-bound-exceeded", fmt.Sprintf("w%d.m%d.%s.ok", w, m, pass), "file above the configured maximum decrypted", nil)
+						}
+					}
+				}
+			}
+			c.Sample(map[string]interface{}{"file_work_factor": 12, "identity_max": 8, "expected": "error, no scrypt call"})
+		}
+
 		// ------------------------------------------------ SSH keys
 		c.Part("ssh-key-edits")
 		edLine := strings.TrimSpace(string(ssh.MarshalAuthorizedKey(keys.Ed(0).SSHPub)))
